@@ -155,7 +155,7 @@ def preConnect (wv : WillVerdict) (b : B) (r : ConnectReq) : B :=
   | none => b
 
 /-- the authenticated rest of `connectWithTimeOut` -/
-def admit (wv : WillVerdict) (bh : BH) (r : ConnectReq) (method : Option String) : BH :=
+def admitConn (wv : WillVerdict) (bh : BH) (r : ConnectReq) (method : Option String) : BH :=
   { bh with b := (preConnect wv bh.b r).connect r,
             pending := bh.pending.filter (·.1 != r.conn),
             authMethod := match method with
@@ -171,8 +171,8 @@ def connectH (av : AuthVerdict) (wv : WillVerdict) (bh : BH) (r : ConnectReq) (m
   | .cont =>
     match method with
     | some am => { bh with pending := (r.conn, r, am) :: bh.pending.filter (·.1 != r.conn) }.xemit r.conn (.auth 24)
-    | none => admit wv bh r method       -- OnBasicAuth has no "continue"
-  | .accept => admit wv bh r method
+    | none => admitConn wv bh r method       -- OnBasicAuth has no "continue"
+  | .accept => admitConn wv bh r method
 
 /-- AUTH during the CONNECT exchange, with the verdict of the `OnAuth` callback -/
 def authContinueH (av : AuthVerdict) (wv : WillVerdict) (bh : BH) (conn : String) (code : Nat) : BH :=
@@ -185,7 +185,7 @@ def authContinueH (av : AuthVerdict) (wv : WillVerdict) (bh : BH) (conn : String
       match av with
       | .reject c => { bh with pending := bh.pending.filter (·.1 != conn) }.xemit conn (.connackErr r.v (errConnackCode r.v c))
       | .cont => bh.xemit conn (.auth 24)
-      | .accept => admit wv bh r (some am)
+      | .accept => admitConn wv bh r (some am)
 
 /-- AUTH on an established connection (`readHandle` + `reAuthHandler`). `dataMatches`: the packet passes the check
     `bytes.Equal(client.opts.AuthMethod, auth.Properties.AuthData)`; `hooked`: `srv.hooks.OnReAuth != nil` -/
@@ -208,7 +208,7 @@ def reauthH (av : AuthVerdict) (wv : WillVerdict) (bh : BH) (conn : String) (dat
     reported for the remaining topics, in order -/
 def mergeCodes (names : List String) (rej : String → Option Nat) (rejCode : Nat → Nat) : List Nat → List Nat :=
   match names with
-  | [] => fun _ => []
+  | [] => fun cs => cs
   | n :: ns => fun cs =>
     match rej n with
     | some code => rejCode code :: mergeCodes ns rej rejCode cs
@@ -276,52 +276,76 @@ def MsgVerdict.result (v : MsgVerdict) (m : Msg) : Option Msg × Option Nat :=
   | .drop => (none, none)
   | .rewrite f => (some (f m), none)
 
-/-- `publishHandler` from the QoS 2 bookkeeping on, for a PUBLISH that passed the checks in front of it:
-    `m` is the message built from the packet (topic resolved from the alias), `s` the publisher's session -/
-def publishPost (v : MsgVerdict) (b : B) (c : Cli) (s : Sess) (r : PubReq) (m : Msg) : B :=
-  let dupl := r.qos == 2 && s.unack.contains r.pid
-  let s := if r.qos == 2 && !dupl then { s with unack := s.unack ++ [r.pid] } else s
-  let b := b.setSess s
-  let (msg, err) := if !dupl then v.result m else (some m, none)
-  let (b, matched) :=
-    if !dupl then
-      match msg, err with
-      | some m', none =>
-        let b := storeRetained b m'
-        b.deliverMsg c.cid m' r.hints r.rapHint
-      | _, _ => (b, false)
-    else (b, false)
-  let code := if c.v == 5 then (match err with | some e => e | none => if !matched then 0x10 else 0) else 0
-  let b := if r.qos == 1 then b.emit r.conn false (.puback r.pid code)
-           else if r.qos == 2 then b.emit r.conn false (.pubrec r.pid code) else b
-  -- a refused QoS 2 publish is forgotten again
-  let b := if r.qos == 2 && code >= 0x80 then
-      match b.sess? c.cid with
-      | some s' => b.setSess { s' with unack := s'.unack.filter (· != r.pid) }
-      | none => b
-    else b
-  -- writeLoop: a PUBACK, and a refusing PUBREC, give the quota back
+/-- what happens to the message the hook left behind: only a message that is still there and was not refused is
+    stored (if RETAIN) and routed; the flag is `topicMatched` -/
+def route (b : B) (c : Cli) (r : PubReq) (res : Option Msg × Option Nat) : B × Bool :=
+  match res with
+  | (some m', none) => (storeRetained b m').deliverMsg c.cid m' r.hints r.rapHint
+  | _ => (b, false)
+
+/-- reason code of the PUBACK / PUBREC -/
+def ackCode (v : Nat) (err : Option Nat) (matched : Bool) : Nat :=
+  if v == 5 then (match err with | some e => e | none => if !matched then 0x10 else 0) else 0
+
+/-- the PUBACK / PUBREC -/
+def ackEmit (b : B) (r : PubReq) (code : Nat) : B :=
+  if r.qos == 1 then b.emit r.conn false (.puback r.pid code)
+  else if r.qos == 2 then b.emit r.conn false (.pubrec r.pid code) else b
+
+/-- a refused QoS 2 publish is forgotten again (`unackStore.Remove`) -/
+def ackForget (b : B) (c : Cli) (r : PubReq) (code : Nat) : B :=
+  if r.qos == 2 && code >= 0x80 then
+    match b.sess? c.cid with
+    | some s' => b.setSess { s' with unack := s'.unack.filter (· != r.pid) }
+    | none => b
+  else b
+
+/-- writeLoop: a PUBACK, and a refusing PUBREC, give the receive quota back -/
+def ackQuota (b : B) (c : Cli) (r : PubReq) (code : Nat) : B :=
   if c.v == 5 && (r.qos == 1 || (r.qos == 2 && code >= 0x80)) then
     match b.cli? r.conn with
     | some c' => b.setCli { c' with quota := min (c'.quota + 1) b.cfg.recvMax }
     | none => b
   else b
 
-/-- the checks in front of the hook (`readLoop`, `readHandle`, head of `publishHandler`), as in `B.publish` -/
-inductive Admission
-  | refused (b : B)                                   -- connection closed by the broker, or unknown
-  | admitted (b : B) (c : Cli) (s : Sess) (r : PubReq) (m : Msg)
+/-- the acknowledgement and what goes with it -/
+def acknowledge (b : B) (c : Cli) (r : PubReq) (code : Nat) : B :=
+  ackQuota (ackForget (ackEmit b r code) c r code) c r code
 
-def publishPre (b : B) (r : PubReq) : Admission :=
+/-- `publishHandler` from the QoS 2 bookkeeping on, for a PUBLISH that passed the checks in front of it:
+    `m` is the message built from the packet (topic resolved from the alias), `s` the publisher's session.
+    A duplicate QoS 2 PUBLISH is acknowledged again; the hook is not consulted and nothing is stored or routed. -/
+def publishPost (v : MsgVerdict) (b : B) (c : Cli) (s : Sess) (r : PubReq) (m : Msg) : B :=
+  let dupl := r.qos == 2 && s.unack.contains r.pid
+  let b1 := b.setSess (if r.qos == 2 && !dupl then { s with unack := s.unack ++ [r.pid] } else s)
+  let res : Option Msg × Option Nat := if dupl then (none, none) else v.result m
+  let bm := route b1 c r res
+  acknowledge bm.1 c r (ackCode c.v res.2 bm.2)
+
+/-- the message `publishHandler` builds from the packet (`gmqtt.MessageFromPublish`, topic already resolved) -/
+def reqMsg (r : PubReq) : Msg :=
+  { topic := r.topic, tag := r.tag, plen := r.plen, qos := r.qos, retained := r.retain, dup := r.dup,
+    expiry := match r.expiry with | some e => e | none => 0 }
+
+/-- the checks in front of the hook (decoder, `readLoop`, `readHandle`, head of `publishHandler`), exactly as in
+    `B.publish`, with the rest of the handler as a continuation: `refused` gets the state after the broker closed the
+    connection (or an unknown connection), `k` the state, client, session and request (topic resolved from the alias)
+    of a PUBLISH that reaches the QoS 2 bookkeeping and the hook. -/
+def publishK {α : Type} (wv : WillVerdict) (refused : B → α) (k : B → Cli → Sess → PubReq → α) (b : B) (r : PubReq) : α :=
   match b.cli? r.conn with
-  | none => .refused b
+  | none => refused b
   | some c =>
-    if c.v == 5 && r.qos > 0 && c.quota == 0 then .refused (b.kick r.conn (some 0x93))
+    -- the decoder refuses alias 0 (0x94) and a zero-length topic name without alias (0x82) before anything else
+    if c.v == 5 && r.alias == some 0 then refused (kickH wv b r.conn (some 0x94))
+    else if r.topic == "" && (c.v != 5 || r.alias.isNone) then refused (kickH wv b r.conn (some 0x82))
+    -- readLoop: receive quota (v5, QoS>0)
+    else if c.v == 5 && r.qos > 0 && c.quota == 0 then refused (kickH wv b r.conn (some 0x93))
     else
       let c := if c.v == 5 && r.qos > 0 then { c with quota := c.quota - 1 } else c
       let b := b.setCli c
-      if c.v == 5 && b.cfg.maxPacket != 0 && r.size > b.cfg.maxPacket then .refused (b.kick r.conn (some 0x95))
-      else if !b.cfg.retainAvail && r.retain then .refused (b.kick r.conn (some 0x9A))
+      -- readHandle: maximum packet size (v5)
+      if c.v == 5 && b.cfg.maxPacket != 0 && r.size > b.cfg.maxPacket then refused (kickH wv b r.conn (some 0x95))
+      else if !b.cfg.retainAvail && r.retain then refused (kickH wv b r.conn (some 0x9A))
       else
         let aliasRes : Except Nat (String × Cli) :=
           if c.v == 5 then
@@ -336,20 +360,23 @@ def publishPre (b : B) (r : PubReq) : Admission :=
             | none => if r.topic == "" then .error 0x82 else .ok (r.topic, c)
           else if r.topic == "" then .error 0x82 else .ok (r.topic, c)
         match aliasRes with
-        | .error code => .refused (b.kick r.conn (some code))
+        | .error code => refused (kickH wv b r.conn (some code))
         | .ok (topic, c) =>
-          let b := b.setCli c
-          let r := { r with topic := topic }
-          let m : Msg := { topic := r.topic, tag := r.tag, plen := r.plen, qos := r.qos, retained := r.retain, dup := r.dup,
-                           expiry := match r.expiry with | some e => e | none => 0 }
-          match b.sess? c.cid with
-          | none => .refused b
-          | some s => .admitted b c s r m
+        let b := b.setCli c
+        let r := { r with topic := topic }
+        match b.sess? c.cid with
+        | none => refused b
+        | some s => k b c s r
 
-/-- PUBLISH with the verdict of OnMsgArrived -/
-def publishH (v : MsgVerdict) (b : B) (r : PubReq) : B :=
-  match publishPre b r with
-  | .refused b' => b'
-  | .admitted b' c s r' m => publishPost v b' c s r' m
+inductive Admission
+  | refused (b : B)                                   -- connection closed by the broker, or unknown
+  | admitted (b : B) (c : Cli) (s : Sess) (r : PubReq)
+
+/-- does the PUBLISH reach the hook, and in which state -/
+def publishPre (wv : WillVerdict) (b : B) (r : PubReq) : Admission := publishK wv .refused .admitted b r
+
+/-- PUBLISH with the verdict of OnMsgArrived (and of OnWillPublish, should the broker close the connection) -/
+def publishH (v : MsgVerdict) (wv : WillVerdict) (b : B) (r : PubReq) : B :=
+  publishK wv id (fun b' c s r' => publishPost v b' c s r' (reqMsg r')) b r
 
 end GmqttVerif.BrokerHooks
